@@ -12,6 +12,7 @@
 //! schedule to control; determinism is nevertheless checked by running every failing history twice.
 
 use std::collections::BTreeMap;
+use std::collections::BTreeSet;
 use std::io::Write;
 use std::path::Path;
 use std::path::PathBuf;
@@ -140,6 +141,14 @@ fn probe_all() -> String {
     s.push_str("shopt -p nullglob extglob dotglob nocasematch\n");
     s.push_str("pwd\n");
     s.push_str("dirs -l -p\n");
+    // the NAMES of all variables, functions and aliases: nothing may appear that a single
+    // session would not have (scrut's own `__SCRUT_...` names exist in its shells only and are
+    // documented as never carried; SCRUT_TEST is set by scrut for every test case; an empty
+    // BASH_COMPAT comes back from the state file - bash lists the variable once it was assigned -
+    // and changes nothing)
+    s.push_str("compgen -v | grep -v -E '^(__SCRUT_|SCRUT_TEST$|BASH_COMPAT$|BASH_EXECUTION_STRING$|_$|PIPESTATUS$)' | sort | tr '\\n' ' '; echo\n");
+    s.push_str("compgen -A function | grep -v '^__scrut_' | sort | tr '\\n' ' '; echo\n");
+    s.push_str("compgen -a | sort | tr '\\n' ' '; echo\n");
     s
 }
 
@@ -601,7 +610,18 @@ fn compare(h: &History) -> Result<Option<String>, String> {
                 let (p, q) = (xl.get(k).copied().unwrap_or("<missing>"), yl.get(k).copied().unwrap_or("<missing>"));
                 if p != q {
                     let cut = |s: &str| s.chars().take(160).collect::<String>();
-                    diff = format!("probe line {}: per-process {:?} vs single session {:?}", k + 1, cut(p), cut(q));
+                    if p.len() > 400 && q.len() > 400 {
+                        // a list of names: say which ones differ
+                        let (pw, qw): (BTreeSet<&str>, BTreeSet<&str>) = (p.split(' ').collect(), q.split(' ').collect());
+                        diff = format!(
+                            "probe line {} (names): only per-process {:?}, only in the single session {:?}",
+                            k + 1,
+                            pw.difference(&qw).take(8).collect::<Vec<_>>(),
+                            qw.difference(&pw).take(8).collect::<Vec<_>>()
+                        );
+                    } else {
+                        diff = format!("probe line {}: per-process {:?} vs single session {:?}", k + 1, cut(p), cut(q));
+                    }
                     break;
                 }
             }
@@ -784,6 +804,12 @@ fn run_c12(tier: &str, seed: u64, threads: usize, known: &KnownFile) -> RealRepo
         "snippet_kinds": tag_counts,
         "probes_per_snippet": probe_all().lines().count(),
     });
+    // histories that have no single-session reference (errexit in force): stated directly
+    let docs = run_real_docs("C12", doc_class("C12"), threads);
+    rep.runs += docs.runs;
+    rep.signatures.extend(docs.signatures);
+    rep.harness_errors.extend(docs.harness_errors);
+    rep.violation_replays.extend(docs.violation_replays);
     rep
 }
 
@@ -964,6 +990,9 @@ fn tricky_expressions() -> Vec<&'static str> {
         "set -e; unset OLDPWD; echo errexit-without-oldpwd",
         "set -eu; echo errexit-nounset",
         "cd /; unset OLDPWD; set -e; echo still-zero",
+        // names the carrier template uses itself, taken (read-only) by the user
+        "readonly code=5; (exit 3)",
+        "declare -r code=0; echo hi; (exit 9)",
         "set -eu; unset OLDPWD; echo strict-without-oldpwd",
         "set -euo pipefail; unset OLDPWD; echo strict",
         "set -u; unset OLDPWD PWD; echo nounset-without-pwd",
@@ -1329,6 +1358,18 @@ fn doc_cases(prop: &str) -> Vec<DocCase> {
                 }
             }
         }
+        "C12" => {
+            // histories with errexit in force have no single-session reference (a failing probe
+            // ends the session); what they must do is stated directly: every test case runs
+            for (a, b) in [
+                ("set -e; mkdir \"$PWD/gone\"; cd \"$PWD/gone\"; V=1", "rmdir \"$OLDPWD/gone\" 2>/dev/null || rmdir ../gone; V=2"),
+                ("set -e; mkdir -p \"$PWD/g1/g2\"; pushd \"$PWD/g1\" >/dev/null; pushd g2 >/dev/null", "cd /; rm -rf \"${DIRSTACK[1]}\""),
+                ("set -eu; mkdir \"$PWD/gone3\"; cd \"$PWD/gone3\"", "cd ..; rmdir gone3; unset OLDPWD"),
+            ] {
+                let tests = vec![t(a, &[], None), t(b, &[], None), t("echo in3", &["in3"], None), t("echo in4", &["in4"], None)];
+                out.push(DocCase { real_doc: true, property: "C12".into(), script_mode: false, skip_code: None, tests, expect: "codes:0,0,0,0".into() });
+            }
+        }
         "C15" => {
             // whatever shell options are in force, the skip code skips - and only the skip code does
             let preludes = [
@@ -1429,7 +1470,11 @@ fn run_real_docs(prop: &str, class: &str, threads: usize) -> RealReport {
 }
 
 pub fn doc_class(prop: &str) -> &'static str {
-    if prop == "C05" { "passed-without-exit-code-real" } else { "skip-code-not-honoured-real" }
+    match prop {
+        "C05" => "passed-without-exit-code-real",
+        "C12" => "state-differs-real",
+        _ => "skip-code-not-honoured-real",
+    }
 }
 
 pub fn replay_real(path: &str, text: &str) -> i32 {
